@@ -26,6 +26,15 @@ EXHAUSTIVE = {'quick': 'all grid shapes with extents 0..4 (125 DiscreteWorld, 4 
               'thorough': 'all grid shapes with extents 0..10 (1331 DiscreteWorld, 10 LineWorld, 100 GridWorld) non-wrapping, wrapping (DiscreteWorld up to 5), all in-range and just-outside coordinates'}
 
 
+def _wrap_kw(wrap):
+    """wrap_env=False is the documented default: half of the non-wrapping worlds are built without naming it."""
+    _wrap_kw.n += 1
+    return {} if (wrap is False and _wrap_kw.n % 2) else {'wrap_env': wrap}
+
+
+_wrap_kw.n = 0
+
+
 def shapes(n):
     for w, h, d in itertools.product(range(n + 1), repeat=3):
         yield {'cls': 'DiscreteWorld', 'ext': [w, h, d]}
@@ -57,11 +66,11 @@ def build(case):
     w, h, d = case['ext']
     wrap = bool(case.get('wrap'))
     if case['cls'] == 'DiscreteWorld':
-        env = envs.DiscreteWorld(m, w, h, d, wrap_env=wrap)
+        env = envs.DiscreteWorld(m, w, h, d, **_wrap_kw(wrap))
     elif case['cls'] == 'LineWorld':
-        env = envs.LineWorld(m, w, wrap_env=wrap)
+        env = envs.LineWorld(m, w, **_wrap_kw(wrap))
     else:
-        env = envs.GridWorld(m, w, h, wrap_env=wrap)
+        env = envs.GridWorld(m, w, h, **_wrap_kw(wrap))
     return envs, env
 
 
@@ -77,6 +86,9 @@ def spell_id(envs, rng, ctx, x, y, z, width, height):
     if k == 6:
         from vlib import reps
         ctx.count('id_deprecated_alias')
+        if rng.random() < 0.5:        # the alias has the same defaults
+            kw = {n_: v_ for n_, v_ in (('y', y), ('z', z)) if v_}
+            return reps.deprecated_call(envs.discreteGridPosToID, x, width=width, height=height, **kw)
         return reps.deprecated_call(envs.discreteGridPosToID, x, y, width, z, height)
     if k == 0 or (k >= 4 and (x, y, z) == (0, 0, 0)):
         return envs.discrete_grid_pos_to_id(x, y, width, z, height)
@@ -129,6 +141,8 @@ def spell_cell(env, rng, ctx, x, y, z):
         with warnings.catch_warnings():
             warnings.simplefilter('ignore')
             ctx.count('cell_deprecated_alias')
+            if z == 0 and rng.random() < 0.5:      # the alias has the same defaults
+                return env.getCell(x, y) if y else env.getCell(x)
             return env.getCell(x, y, z)
     return env.get_cell(x, y, z)
 
@@ -185,6 +199,45 @@ def run_case(ctx, case):
                                 f'raising IndexError', shape=case, n_unrejected=len(leaks))
         check(env.cells['probe'].tolist() == list(range(ncells)), 'get_cell(pos).name seen from inside a generator is not the cell id', shape=case)
         env.remove_cell_component('probe')
+        # ... and one that changes the table from inside (creates a prerequisite component on demand, drops a scratch one) between two
+        # lookups of the same cell: every lookup returns the cell's row with the components the cell has THEN
+        stale = []
+        drop_at = rng_.randrange(ncells)
+        form = rng_.choice(['list', 'callable', 'array'])
+        env.add_cell_component('scratch', [0] * ncells)
+
+        def lazy(pos, cells):
+            r0 = env.get_cell(*pos)
+            if 'prereq' not in env.cells.columns:
+                vals = [code(p) + 7 for p in env.cells['pos']]
+                if form == 'list':
+                    env.add_cell_component('prereq', vals)
+                elif form == 'array':
+                    import numpy as _np
+                    env.add_cell_component('prereq', _np.array(vals))
+                else:
+                    env.add_cell_component('prereq', lambda p, c: code(p) + 7)
+                r1 = env.get_cell(*pos)
+                if 'prereq' not in r1.index or r1['prereq'] != code(pos) + 7:
+                    stale.append((tuple(pos), 'lacks the component added since the previous lookup', sorted(map(str, r1.index))))
+            if r0.name == drop_at:
+                env.remove_cell_component('scratch')
+                r2 = env.get_cell(*pos)
+                if 'scratch' in r2.index:
+                    stale.append((tuple(pos), 'still shows the component removed since the previous lookup', sorted(map(str, r2.index))))
+            r3 = env.get_cell(*pos)
+            if tuple(r3['pos']) != tuple(pos) or r3.get('prereq') != code(pos) + 7 or r3['code'] != code(pos):
+                stale.append((tuple(pos), 'wrong values', r3.to_dict()))
+            return (r3.get('prereq') or 0) * 2
+
+        env.add_cell_component('lazy', lazy)
+        ctx.count('generators_that_change_the_table_between_two_lookups')
+        if stale:
+            raise CaseViolation(f'get_cell{stale[0][0]} called from inside a cell-component generator {stale[0][1]}: not the cell\'s row with all its '
+                                f'cell-component values', shape=case, row=stale[0][2], n=len(stale), prerequisite_added_as=form)
+        check(env.cells['lazy'].tolist() == [2 * (code(p) + 7) for p in env.cells['pos']], 'values produced by a generator that looked cells up are wrong', shape=case)
+        for name_ in ('lazy', 'prereq'):
+            env.remove_cell_component(name_)
     check(sorted(env.cells.columns) == ['code', 'pos', 'tag'], f'the world\'s cell table has the columns {sorted(env.cells.columns)}: cell components of '
           f'another world of the same shape show up in it', shape=case)
     check(len(env.cells) == ncells, f'world has {len(env.cells)} cells, expected {ncells}', shape=case)
